@@ -1,5 +1,7 @@
 import SigpyVerif.Model.Py
 import SigpyVerif.Gen.ConvFormulas
+import SigpyVerif.Gen.ConvWiring
+import SigpyVerif.Gen.ConvParams
 /-
   C08 model: `sigpy.conv` (CPU paths) — `_get_convolve_params`, `_convolve`, `_convolve_data_adjoint`,
   `_convolve_filter_adjoint`.
@@ -7,6 +9,12 @@ import SigpyVerif.Gen.ConvFormulas
   * Integer formulas and decision logic (`p` per mode, the admission test of mode 'valid', the
     zero-stuffed buffer lengths and the correlate mode chosen by the adjoints' branches) come from
     `Gen.ConvFormulas`, regenerated from the source on every run.
+  * The wiring of the `for k in range(B): for j in range(c_o): for i in range(c_i):` nests — which slice is
+    accumulated into, which operands are convolved / correlated, which slice of `output` is zero-stuffed into
+    the buffer, `+=` vs `=`, where `[slc]` is applied, which array's dtype each buffer is allocated with —
+    comes from `Gen.ConvWiring`, also regenerated on every run: the index pairs are consumed by `loopSum` /
+    `at2` below (all multi-channel functions of this file), the flags by `convWiringOk` / `adjWiringOk` and the
+    dtype decision table (`convOutcome`, `adjOutcome`).
   * `scipy.signal.convolve / correlate` and numpy slicing / broadcasting / reshape enter by their
     contracts, written by hand here (`convOff`, `corrShift`, `corrLen`, `sliceLen`, `bcast`, `npReshape`);
     the contracts were checked against scipy 1.18 numerically and are re-checked by the correspondence.
@@ -96,22 +104,114 @@ def filtAdj1Len (full : Bool) (m n : Int) : Int :=
   let L := if full then Gen.filtAdjBufLenFull m n else Gen.filtAdjBufLenValid m n
   scipyLen (Gen.filtAdjCorrFull full [m] [n]) L m
 
+/-! ### the generated loop wiring (`Gen.ConvWiring`) -/
+
+/-- value of the loop variable of the loop over `range(B)` / `range(c_o)` / `range(c_i)` -/
+def pick (r : Gen.ConvDim) (b o c : Int) : Int :=
+  match r with
+  | .B => b
+  | .co => o
+  | .ci => c
+
+/-- `X[v, w]` for the loop variables `(b, o, c)`, `v, w` as named in the source -/
+def at2 {β : Type} (x : Int → Int → β) (r : Gen.ConvDim × Gen.ConvDim) (b o c : Int) : β :=
+  x (pick r.1 b o c) (pick r.2 b o c)
+
+/-- the loop nest as it executes: every `(k, j, i)` in `range(B) × range(c_o) × range(c_i)` adds one term into
+    the slice `X[v, w]` the accumulate statement names; this is the content of slice `(s1, s2)` afterwards
+    (the array starts as zeros and the statement is `+=` — flags `…AccZeros`, `…AccIsAdd`) -/
+def loopSum (B co ci : Nat) (acc : Gen.ConvDim × Gen.ConvDim) (s1 s2 : Int) (term : Int → Int → Int → α) : α :=
+  sumTo B fun b => sumTo co fun o => sumTo ci fun c =>
+    if pick acc.1 b o c = s1 ∧ pick acc.2 b o c = s2 then term b o c else 0
+
+/-- the flags of `_convolve` this model relies on (everything that is not an index pair) -/
+def convWiringOk : Bool :=
+  Gen.convAccArr == .output && Gen.convAccIsAdd && Gen.convAccZeros && Gen.convOp == .convolve &&
+  Gen.convModeArg == .mode && Gen.convResultSliced && Gen.convLhsArr == .data && Gen.convRhsArr == .filt &&
+  Gen.convLayout_data == (.B, .ci, .m) && Gen.convLayout_filt == (.co, .ci, .n) &&
+  Gen.convLayout_output == (.B, .co, .p)
+
+/-- the flags of `_convolve_data_adjoint` (`wrtData`) / `_convolve_filter_adjoint` this model relies on: the
+    accumulated array is the right one, zero-initialised and updated by `+=`; scipy's `correlate` is called with
+    the buffer first and `mode=adjoint_mode`, its result is not sliced; the buffer is zero-initialised in both
+    mode branches, written only through `[slc]` from `output`, inside the loops that bind the index variables of
+    the copied slice and before the use -/
+def adjWiringOk (wrtData : Bool) : Bool :=
+  if wrtData then
+    Gen.dataAdjAccArr == .data && Gen.dataAdjAccIsAdd && Gen.dataAdjAccZeros && Gen.dataAdjOp == .correlate &&
+    Gen.dataAdjModeArg == .adjointMode && !Gen.dataAdjResultSliced && Gen.dataAdjLhsArr == .outputKj &&
+    Gen.dataAdjBufSrcArr == .output && Gen.dataAdjBufSliced && Gen.dataAdjStuffBeforeUse &&
+    Gen.dataAdjStuffScope.contains Gen.dataAdjBufSrcIdx.1 && Gen.dataAdjStuffScope.contains Gen.dataAdjBufSrcIdx.2 &&
+    Gen.dataAdjBufZerosFull && Gen.dataAdjBufZerosValid && Gen.dataAdjRhsArr == .filt &&
+    Gen.dataAdjLayout_data == (.B, .ci, .m) && Gen.dataAdjLayout_filt == (.co, .ci, .n) &&
+    Gen.dataAdjLayout_output == (.B, .co, .p)
+  else
+    Gen.filtAdjAccArr == .filt && Gen.filtAdjAccIsAdd && Gen.filtAdjAccZeros && Gen.filtAdjOp == .correlate &&
+    Gen.filtAdjModeArg == .adjointMode && !Gen.filtAdjResultSliced && Gen.filtAdjLhsArr == .outputKj &&
+    Gen.filtAdjBufSrcArr == .output && Gen.filtAdjBufSliced && Gen.filtAdjStuffBeforeUse &&
+    Gen.filtAdjStuffScope.contains Gen.filtAdjBufSrcIdx.1 && Gen.filtAdjStuffScope.contains Gen.filtAdjBufSrcIdx.2 &&
+    Gen.filtAdjBufZerosFull && Gen.filtAdjBufZerosValid && Gen.filtAdjRhsArr == .data &&
+    Gen.filtAdjLayout_data == (.B, .ci, .m) && Gen.filtAdjLayout_filt == (.co, .ci, .n) &&
+    Gen.filtAdjLayout_output == (.B, .co, .p)
+
+/-! ### dtypes (real float64 / complex128): numpy's casting rules, hand-written contract
+
+  * `buf[slc] = src` casts silently: complex → real drops the imaginary part (ComplexWarning only);
+  * `acc[v, w] += term` raises a casting TypeError (`UFuncTypeError`, rule 'same_kind') when `term` is complex and
+    `acc` is real;
+  * scipy's result dtype is the promotion of its operands' dtypes. -/
+
+inductive DtypeOutcome where
+  | exact | dropsImag | typeError
+deriving DecidableEq, Repr
+
+/-- is the array complex: `cd cf cy` = dtype of the caller's data / filter / output-side array -/
+def baseCplx (cd cf cy : Bool) : Gen.ConvArr → Bool
+  | .data => cd
+  | .filt => cf
+  | .output => cy
+  | .outputKj => false
+
+def convDtypeRule (accC lhsC rhsC : Bool) : DtypeOutcome :=
+  if (lhsC || rhsC) && !accC then .typeError else .exact
+
+def adjDtypeRule (accC bufC srcC otherC : Bool) : DtypeOutcome :=
+  if (bufC || otherC) && !accC then .typeError else if srcC && !bufC then .dropsImag else .exact
+
+/-- `_convolve` with the generated allocation dtype -/
+def convOutcome (cd cf : Bool) : DtypeOutcome :=
+  let c := baseCplx cd cf false
+  convDtypeRule (c Gen.convAccDtype) (c Gen.convLhsArr) (c Gen.convRhsArr)
+
+/-- the adjoints with the generated allocation dtypes (`cother`: dtype of the frozen operand) -/
+def adjOutcome (wrtData full cd cf cy : Bool) : DtypeOutcome :=
+  let c := baseCplx cd cf cy
+  if wrtData then
+    adjDtypeRule (c Gen.dataAdjAccDtype) (c (if full then Gen.dataAdjBufDtypeFull else Gen.dataAdjBufDtypeValid))
+      (c Gen.dataAdjBufSrcArr) (c Gen.dataAdjRhsArr)
+  else
+    adjDtypeRule (c Gen.filtAdjAccDtype) (c (if full then Gen.filtAdjBufDtypeFull else Gen.filtAdjBufDtypeValid))
+      (c Gen.filtAdjBufSrcArr) (c Gen.filtAdjRhsArr)
+
 /-! ### 1-D batch / multi-channel layer: the loops `for k in range(B): for j in range(c_o): for i in range(c_i)`
-    (`d b c i`, `f o c j`, `y b o k`: batch `b`, input channel `c`, output channel `o`) -/
+    with the generated wiring (`d b c i`, `f o c j`, `y b o k`: batch `b`, input channel `c`, output channel `o`) -/
 
-/-- `_convolve`: `output[b, o] = Σ_c convolve(data[b, c], filt[o, c])[::s]` -/
-def convMC1At (full : Bool) (m n s : Int) (ci : Nat) (d f : Int → Int → Int → α) (b o k : Int) : α :=
-  sumTo ci fun c => conv1At full m n s (d b c) (f o c) k
+/-- `_convolve`: slice `[b, o]` of the output after the loops -/
+def convMC1At (full : Bool) (m n s : Int) (B co ci : Nat) (d f : Int → Int → Int → α) (b o k : Int) : α :=
+  loopSum B co ci Gen.convAccIdx b o fun b' o' c' =>
+    conv1At full m n s (at2 d Gen.convLhsIdx b' o' c') (at2 f Gen.convRhsIdx b' o' c') k
 
-/-- `_convolve_data_adjoint`: `data[b, c] = Σ_o correlate(stuffed output[b, o], filt[o, c])` -/
-def dataAdjMC1At (conj : α → α) (full : Bool) (m n s : Int) (co : Nat) (y f : Int → Int → Int → α)
+/-- `_convolve_data_adjoint`: slice `[b, c]` of `data` after the loops -/
+def dataAdjMC1At (conj : α → α) (full : Bool) (m n s : Int) (B co ci : Nat) (y f : Int → Int → Int → α)
     (b c i : Int) : α :=
-  sumTo co fun o => dataAdj1At conj full m n s (y b o) (f o c) i
+  loopSum B co ci Gen.dataAdjAccIdx b c fun b' o' c' =>
+    dataAdj1At conj full m n s (at2 y Gen.dataAdjBufSrcIdx b' o' c') (at2 f Gen.dataAdjRhsIdx b' o' c') i
 
-/-- `_convolve_filter_adjoint`: `filt[o, c] = Σ_b correlate(stuffed output[b, o], data[b, c])` -/
-def filtAdjMC1At (conj : α → α) (full : Bool) (m n s : Int) (B : Nat) (y d : Int → Int → Int → α)
+/-- `_convolve_filter_adjoint`: slice `[o, c]` of `filt` after the loops -/
+def filtAdjMC1At (conj : α → α) (full : Bool) (m n s : Int) (B co ci : Nat) (y d : Int → Int → Int → α)
     (o c j : Int) : α :=
-  sumTo B fun b => filtAdj1At conj full m n s (y b o) (d b c) j
+  loopSum B co ci Gen.filtAdjAccIdx o c fun b' o' c' =>
+    filtAdj1At conj full m n s (at2 y Gen.filtAdjBufSrcIdx b' o' c') (at2 d Gen.filtAdjRhsIdx b' o' c') j
 
 /-! ### 2-D single-channel layer (product index predicate; the correlate mode is chosen once for both axes) -/
 
@@ -205,6 +305,26 @@ def mkAxes (wrtData full : Bool) (m n s : List Int) : List Axis :=
     { m := if wrtData then a else b, n := if wrtData then b else a, s := c, off := convOff full a b, L := L,
       shift := corrShift cf L (if wrtData then b else a), p := codeLen full a b c }
 
+/-! ### D-dimensional batch / multi-channel layer with the generated wiring
+    (`d b c is`, `f o c js`, `y b o ks`) -/
+
+/-- `_convolve`: slice `[b, o]` of the output after the loops -/
+def convMCD (axes : List Axis) (B co ci : Nat) (d f : Int → Int → List Int → α) (b o : Int) (k : List Int) : α :=
+  loopSum B co ci Gen.convAccIdx b o fun b' o' c' =>
+    convD axes (at2 d Gen.convLhsIdx b' o' c') (at2 f Gen.convRhsIdx b' o' c') k
+
+/-- `_convolve_data_adjoint`: slice `[b, c]` of `data` after the loops -/
+def dataAdjMCD (conj : α → α) (axes : List Axis) (B co ci : Nat) (y f : Int → Int → List Int → α)
+    (b c : Int) (i : List Int) : α :=
+  loopSum B co ci Gen.dataAdjAccIdx b c fun b' o' c' =>
+    adjD conj axes (at2 y Gen.dataAdjBufSrcIdx b' o' c') (at2 f Gen.dataAdjRhsIdx b' o' c') i
+
+/-- `_convolve_filter_adjoint`: slice `[o, c]` of `filt` after the loops -/
+def filtAdjMCD (conj : α → α) (axes : List Axis) (B co ci : Nat) (y d : Int → Int → List Int → α)
+    (o c : Int) (j : List Int) : α :=
+  loopSum B co ci Gen.filtAdjAccIdx o c fun b' o' c' =>
+    adjD conj axes (at2 y Gen.filtAdjBufSrcIdx b' o' c') (at2 d Gen.filtAdjRhsIdx b' o' c') j
+
 /-! ### N-D / batch / multi-channel layer (executable) -/
 
 def sumList {β} (l : List β) (g : β → α) : α := l.foldl (fun acc x => acc + g x) 0
@@ -242,27 +362,66 @@ structure Params where
   co : Int
   p : List Int
 
+/-! #### how `_get_convolve_params` splits the two shapes (index expressions from `Gen.ConvParams`) -/
+
+/-- Python `l[i]`: negative indices count from the end; out of range = IndexError (`none`) -/
+def pyGet (l : List Int) (i : Int) : Option Int :=
+  let j := if i < 0 then i + l.length else i
+  if 0 ≤ j ∧ j < l.length then l[j.toNat]? else none
+
+/-- a slice bound normalised and clipped as Python does -/
+def pyBound (len i : Int) : Nat := (if i < 0 then pyMax (i + len) 0 else pyMin i len).toNat
+
+/-- `l[lo:]` -/
+def pyFrom (l : List Int) (lo : Int) : List Int := l.drop (pyBound l.length lo)
+
+/-- `l[:hi]` -/
+def pyUpto (l : List Int) (hi : Int) : List Int := l.take (pyBound l.length hi)
+
+def shapeArg (a : Gen.ConvShapeArg) (dsh fsh : List Int) : List Int :=
+  match a with
+  | .dataShape => dsh
+  | .filtShape => fsh
+
+structure Split where
+  D : Int
+  b : List Int
+  m : List Int
+  n : List Int
+  ci : Int
+  co : Int
+deriving DecidableEq, Repr
+
+/-- the first half of `_get_convolve_params`: `D`, `m`, `n`, `b`, the channel check, `c_i`, `c_o` -/
+def splitShapes (dsh fsh : List Int) (mc : Bool) : Except String Split :=
+  let mcI : Int := if mc then 1 else 0
+  let D := Gen.paramD dsh.length fsh.length mcI
+  -- `shape[-0:]` would be the whole shape; ranks the callers never produce are not modelled
+  if D < 1 ∨ (dsh.length : Int) < D + mcI then .error "bad-rank" else
+  let m := pyFrom (shapeArg Gen.paramMSrc dsh fsh) (Gen.paramMLo D mcI)
+  let n := pyFrom (shapeArg Gen.paramNSrc dsh fsh) (Gen.paramNLo D mcI)
+  let b := pyUpto (shapeArg Gen.paramBSrc dsh fsh) (Gen.paramBHi D mcI)
+  if mc then
+    match pyGet (shapeArg Gen.paramChkLhsSrc dsh fsh) (Gen.paramChkLhsIdx D mcI),
+        pyGet (shapeArg Gen.paramChkRhsSrc dsh fsh) (Gen.paramChkRhsIdx D mcI),
+        pyGet (shapeArg Gen.paramCiSrc dsh fsh) (Gen.paramCiIdx D mcI),
+        pyGet (shapeArg Gen.paramCoSrc dsh fsh) (Gen.paramCoIdx D mcI) with
+    | some l, some r, some ci, some co =>
+      if l ≠ r then .error "ValueError" else .ok { D := D, b := b, m := m, n := n, ci := ci, co := co }
+    | _, _, _, _ => .error "IndexError"
+  else .ok { D := D, b := b, m := m, n := n, ci := Gen.paramCiDefault, co := Gen.paramCoDefault }
+
 /-- `_get_convolve_params` -/
 def getParams (dsh fsh : List Int) (full : Bool) (strides : Option (List Int)) (mc : Bool) :
     Except String Params := do
-  let c : Nat := if mc then 1 else 0
-  if fsh.length < 2 * c + 1 ∨ dsh.length < fsh.length - c then throw "bad-rank"
-  let D := fsh.length - 2 * c
-  let m := dsh.drop (dsh.length - D)
-  let n := fsh.drop (fsh.length - D)
-  let b := dsh.take (dsh.length - D - c)
-  let dci := dsh.getD (dsh.length - D - 1) 1
-  let fci := fsh.getD (fsh.length - D - 1) 1
-  if mc ∧ dci ≠ fci then throw "ValueError"
-  let ci := if mc then fci else 1
-  let co := if mc then fsh.getD (fsh.length - D - 2) 1 else 1
+  let S ← splitShapes dsh fsh mc
   let s ← match strides with
-    | none => pure (List.replicate D (1 : Int))
-    | some st => if st.length ≠ D then throw "ValueError" else pure st
-  let p ← if full then pure (zip3With Gen.convFullLen m n s)
-    else if Gen.convValidRejects m n then throw "ValueError"
-    else pure (zip3With Gen.convValidLen m n s)
-  pure { b := b, B := shapeProd b, m := m, n := n, s := s, ci := ci, co := co, p := p }
+    | none => pure (List.replicate S.D.toNat (1 : Int))
+    | some st => if (st.length : Int) ≠ S.D then throw "ValueError" else pure st
+  let p ← if full then pure (zip3With Gen.convFullLen S.m S.n s)
+    else if Gen.convValidRejects S.m S.n then throw "ValueError"
+    else pure (zip3With Gen.convValidLen S.m S.n s)
+  pure { b := S.b, B := shapeProd S.b, m := S.m, n := S.n, s := s, ci := S.ci, co := S.co, p := p }
 
 /-- sample `k` (already strided: `k` indexes the sliced result) of the N-D convolution of two zero-extended
     index functions, by definition: `Σ_i d[i]·f[k·s + off - i]` -/
@@ -275,31 +434,44 @@ def corrNDAt (conj : α → α) (nv : List Int) (z v : List Int → α) (shift k
   sumList (allIdx nv) fun j =>
     z (zip3With (fun kd jd sd => kd + jd - sd) k j shift) * conj (v j)
 
-/-- `_convolve` -/
-def convolve (dsh fsh : List Int) (full : Bool) (strides : Option (List Int)) (mc : Bool)
+/-- the `(k, j, i)` triples of the loop nest, and the terms that land in slice `(s1, s2)` of the accumulated array
+    (the executable counterpart of `loopSum`) -/
+def loopSumL (B co ci : Int) (acc : Gen.ConvDim × Gen.ConvDim) (s1 s2 : Int) (term : Int → Int → Int → α) : α :=
+  sumList (allIdx [B, co, ci]) fun t =>
+    match t with
+    | [b, o, c] => if pick acc.1 b o c = s1 ∧ pick acc.2 b o c = s2 then term b o c else 0
+    | _ => 0
+
+/-- `_convolve`; `cd cf`: the data / filter array has a complex dtype -/
+def convolve (dsh fsh : List Int) (full : Bool) (strides : Option (List Int)) (mc : Bool) (cd cf : Bool)
     (data filt : Array α) : Except String (List Int × Array α) := do
+  if !convWiringOk then throw "unsupported-wiring"
   let P ← getParams dsh fsh full strides mc
   if P.p.any (· < 0) then throw "ValueError"          -- np.zeros with a negative dimension
   let dshN := [P.B, P.ci] ++ P.m
   let fshN := [P.co, P.ci] ++ P.n
   let q := List.zipWith sliceLen (List.zipWith (scipyLen full) P.m P.n) P.s   -- shape of convolve(...)[slc]
+  if convOutcome cd cf == .typeError then throw "TypeError"   -- `output[k, j] += <complex>` into a real array
   if !bcast q P.p then throw "ValueError"              -- `output[k, j] += …` must broadcast
   let off := List.zipWith (convOff full) P.m P.n
   let out := (allIdx ([P.B, P.co] ++ P.p)).map fun idx =>
     match idx with
     | k :: j :: kk =>
-      sumList (pyRange0 P.ci) fun i =>
-        convNDAt P.m (fun ii => readZ dshN data (k :: i :: ii)) (fun jj => readZ fshN filt (j :: i :: jj))
+      loopSumL P.B P.co P.ci Gen.convAccIdx k j fun b o c =>
+        convNDAt P.m (fun ii => readZ dshN data (pick Gen.convLhsIdx.1 b o c :: pick Gen.convLhsIdx.2 b o c :: ii))
+          (fun jj => readZ fshN filt (pick Gen.convRhsIdx.1 b o c :: pick Gen.convRhsIdx.2 b o c :: jj))
           off P.s (bIdx q kk)
     | _ => 0
   pure (P.b ++ (if mc then [P.co] else []) ++ P.p, out.toArray)
 
 /-- `_convolve_data_adjoint` (`wrtData = true`: `other` is the filter, result has shape `dsh`) and
     `_convolve_filter_adjoint` (`wrtData = false`: `other` is the data, result has shape `fsh`).
-    `ysh` is the shape of the `output` argument as passed by the caller. -/
-def adjoint (conj : α → α) (wrtData : Bool) (dsh fsh : List Int) (full : Bool)
-    (strides : Option (List Int)) (mc : Bool) (ysh : List Int) (y other : Array α) :
+    `ysh` is the shape of the `output` argument as passed by the caller; `cd cf cy`: the data / filter / output-side
+    array has a complex dtype; `re`: real part (what numpy keeps when it casts complex to real). -/
+def adjoint (conj re : α → α) (wrtData : Bool) (dsh fsh : List Int) (full : Bool)
+    (strides : Option (List Int)) (mc : Bool) (cd cf cy : Bool) (ysh : List Int) (y other : Array α) :
     Except String (List Int × Array α) := do
+  if !adjWiringOk wrtData then throw "unsupported-wiring"
   let P ← getParams dsh fsh full strides mc
   let some yshN := npReshape (shapeProd ysh) ([P.B, P.co] ++ P.p) | throw "ValueError"
   let p' := yshN.drop 2
@@ -308,37 +480,36 @@ def adjoint (conj : α → α) (wrtData : Bool) (dsh fsh : List Int) (full : Boo
   let L := if wrtData then
       List.zipWith (if full then Gen.dataAdjBufLenFull else Gen.dataAdjBufLenValid) P.m P.n
     else List.zipWith (if full then Gen.filtAdjBufLenFull else Gen.filtAdjBufLenValid) P.m P.n
-  let cf := if wrtData then Gen.dataAdjCorrFull full P.m P.n else Gen.filtAdjCorrFull full P.m P.n
+  let cf' := if wrtData then Gen.dataAdjCorrFull full P.m P.n else Gen.filtAdjCorrFull full P.m P.n
   let q := List.zipWith sliceLen L P.s                 -- shape of `output_kj[slc]`
   if !bcast p' q then throw "ValueError"               -- `output_kj[slc] = output[k, j]`
   let nv := if wrtData then P.n else P.m
   let tgt := if wrtData then P.m else P.n
   -- scipy 'valid' needs one operand at least as large as the other on every axis
-  if !cf ∧ !((List.zip L nv).all (fun (a, b) => a ≥ b) ∨ (List.zip L nv).all (fun (a, b) => b ≥ a)) then
+  if !cf' ∧ !((List.zip L nv).all (fun (a, b) => a ≥ b) ∨ (List.zip L nv).all (fun (a, b) => b ≥ a)) then
     throw "ValueError"
-  let cl := List.zipWith (scipyLen cf) L nv
+  let outcome := adjOutcome wrtData full cd cf cy
+  if outcome == .typeError then throw "TypeError"      -- `data[k, i] += <complex>` into a real array
+  let cl := List.zipWith (scipyLen cf') L nv
   if !bcast cl tgt then throw "ValueError"             -- `data[k, i] += correlate(...)`
-  let shift := List.zipWith (corrShift cf) L nv
+  let shift := List.zipWith (corrShift cf') L nv
+  let cast (v : α) : α := if outcome == .dropsImag then re v else v   -- `output_kj[slc] = …` into a real buffer
   let z (k j : Int) (t : List Int) : α :=
     if inBounds L t ∧ (List.zip t P.s).all (fun (td, sd) => pyMod td sd == 0) then
-      readZ yshN y (k :: j :: bIdx p' (List.zipWith pyDiv t P.s))
+      cast (readZ yshN y (k :: j :: bIdx p' (List.zipWith pyDiv t P.s)))
     else 0
-  if wrtData then
-    let out := (allIdx dshN).map fun idx =>
-      match idx with
-      | k :: i :: ii =>
-        sumList (pyRange0 P.co) fun j =>
-          corrNDAt conj nv (z k j) (fun jj => readZ fshN other (j :: i :: jj)) shift (bIdx cl ii)
-      | _ => 0
-    pure (dsh, out.toArray)
-  else
-    let out := (allIdx fshN).map fun idx =>
-      match idx with
-      | j :: i :: jj =>
-        sumList (pyRange0 P.B) fun k =>
-          corrNDAt conj nv (z k j) (fun ii => readZ dshN other (k :: i :: ii)) shift (bIdx cl jj)
-      | _ => 0
-    pure (fsh, out.toArray)
+  let accIdx := if wrtData then Gen.dataAdjAccIdx else Gen.filtAdjAccIdx
+  let srcIdx := if wrtData then Gen.dataAdjBufSrcIdx else Gen.filtAdjBufSrcIdx
+  let rhsIdx := if wrtData then Gen.dataAdjRhsIdx else Gen.filtAdjRhsIdx
+  let oshN := if wrtData then fshN else dshN
+  let out := (allIdx (if wrtData then dshN else fshN)).map fun idx =>
+    match idx with
+    | s1 :: s2 :: ii =>
+      loopSumL P.B P.co P.ci accIdx s1 s2 fun b o c =>
+        corrNDAt conj nv (z (pick srcIdx.1 b o c) (pick srcIdx.2 b o c))
+          (fun jj => readZ oshN other (pick rhsIdx.1 b o c :: pick rhsIdx.2 b o c :: jj)) shift (bIdx cl ii)
+    | _ => 0
+  pure (if wrtData then dsh else fsh, out.toArray)
 
 end generic
 
